@@ -3,8 +3,11 @@ package props
 import (
 	"archive/zip"
 	"bytes"
+	"compress/flate"
 	"fmt"
+	"hash/crc32"
 	"io"
+	"math/bits"
 	"os"
 	"path/filepath"
 	"regexp"
@@ -45,6 +48,37 @@ func zipParts(names []string, parts map[string][]byte) []byte {
 	var buf bytes.Buffer
 	zw := zip.NewWriter(&buf)
 	for _, n := range names {
+		w, err := zw.Create(n)
+		if err != nil {
+			continue
+		}
+		w.Write(parts[n])
+	}
+	zw.Close()
+	return buf.Bytes()
+}
+
+// zipPartsLying writes the archive with one entry whose header claims another uncompressed size than its data has.
+func zipPartsLying(names []string, parts map[string][]byte, victim string, claimed uint64) []byte {
+	var buf bytes.Buffer
+	zw := zip.NewWriter(&buf)
+	done := false
+	for _, n := range names {
+		if n == victim && !done {
+			done = true
+			var comp bytes.Buffer
+			fw, _ := flate.NewWriter(&comp, flate.DefaultCompression)
+			fw.Write(parts[n])
+			fw.Close()
+			fh := &zip.FileHeader{Name: n, Method: zip.Deflate}
+			fh.CRC32 = crc32.ChecksumIEEE(parts[n])
+			fh.CompressedSize64 = uint64(comp.Len())
+			fh.UncompressedSize64 = claimed
+			if w, err := zw.CreateRaw(fh); err == nil {
+				w.Write(comp.Bytes())
+			}
+			continue
+		}
 		w, err := zw.Create(n)
 		if err != nil {
 			continue
@@ -395,6 +429,14 @@ func mutateInput(r *rng.R, workDir string) (data []byte, desc []string) {
 		}
 	}
 	data = zipParts(names, parts2)
+	if r.Chance(1, 25) && len(names) > 0 {
+		// one entry whose directory record declares an uncompressed size it does not have (2^32 .. 2^63, a ZIP64 record):
+		// what an archive claims about itself is input like everything else
+		victim := names[r.Intn(len(names))]
+		claimed := []uint64{1 << 32, 1 << 40, 1 << 48, 1 << 50, 1 << 62, 1<<63 + 12345}[r.Intn(6)]
+		data = zipPartsLying(names, parts2, victim, claimed)
+		desc = append(desc, fmt.Sprintf("declared-size-2^%d@%s", bits.Len64(claimed)-1, opc.Class(victim)))
+	}
 	switch r.Intn(14) {
 	case 0:
 		if len(data) > 0 {
